@@ -26,6 +26,7 @@ func init() {
 		ID:    "C08",
 		Level: "exploration",
 		Rule: "raw-TCP client (exact bytes, no client-side normalisation) -> real proxy server (plain and TLS, peers 127.0.0.1 and [::1]; zoned IPv6 peers as synthetic RemoteAddr) running forward.New(passHost) -> recording raw-TCP backend; request targets from a grammar over RFC 3986 pchar (escaped slashes/spaces/percent, upper and lower-case hex, multi-byte escapes, ';' '+' ',' '=' '@' ':', '//', dot segments, empty query '?', queries with '& = ; + / ? %xx'), 0-8 end-to-end and 0-4 hop-by-hop headers, Connection naming custom and forwarding headers, upstream-supplied X-Forwarded-*, Host with and without port, both pass-through settings; scripted backend responses with hop-by-hop and end-to-end headers; " +
+			"Hosts incl. IPv6 literals with and without port; websocket handshakes (declined by the backend) with upstream-supplied forwarding headers; " +
 			"oracle computed from the bytes sent and the socket used, independent of oxy; non-trivial = request with an escaped or unusual target or with hop-by-hop / forwarding headers; distinct by (target, header set, configuration)",
 		Assumptions: []string{"exemptions that are documented behaviour of net/http's reverse proxy and not demanded by the statement: 'Te: trailers' kept, upgrade requests, Accept-Encoding added by the transport, blank User-Agent", "an upstream-supplied X-Forwarded-Server may be kept or replaced by the proxy's own name"},
 		Parts:       []Part{{Name: "rewrite", Shards: 12, Fn: c08Rewrite}},
@@ -340,7 +341,7 @@ func c08Rewrite(c *Ctx) {
 		}
 		tfeature := feature
 		method := pick(r, []string{"GET", "GET", "POST", "PUT", "DELETE"})
-		hostHdr := pick(r, []string{"front.test", "front.test:8443", "front.test:80", "10.1.2.3:9000", "10.1.2.3", "[::1]", "[2001:db8::8443]", "[2001:db8::1]:8080"})
+		hostHdr := pick(r, []string{"front.test", "front.test:8443", "front.test:80", "10.1.2.3:9000", "10.1.2.3", "[::1]", "[2001:db8::8443]", "[2001:db8::1]:8080", "front.test:", "[2001:db8::1]:"})
 		absolute := r.IntN(12) == 0
 		// header set
 		type hv struct{ k, v string }
@@ -379,11 +380,17 @@ func c08Rewrite(c *Ctx) {
 		}
 		// forwarding headers supplied by an upstream proxy
 		supplied := map[string]string{}
+		suppliedMore := map[string][]string{} // further lines of the same field, in wire order after the first
 		for _, name := range []string{"X-Forwarded-Proto", "X-Forwarded-Host", "X-Forwarded-Port", "X-Forwarded-Server", "X-Real-Ip", "X-Forwarded-For"} {
 			if r.IntN(6) == 0 {
 				v := map[string]string{"X-Forwarded-Proto": pick(r, []string{"https", "https", "http", "ws", "wss"}), "X-Forwarded-Host": "orig.example", "X-Forwarded-Port": "8443", "X-Forwarded-Server": "edge-1", "X-Real-Ip": "203.0.113.9", "X-Forwarded-For": "203.0.113.9, 198.51.100.2"}[name]
 				hdrs = append(hdrs, hv{name, v})
 				supplied[name] = v
+				if name == "X-Forwarded-Proto" && r.IntN(3) == 0 {
+					// a chain of upstream proxies may supply the field on several lines: forwarded as supplied
+					hdrs = append(hdrs, hv{name, "http"})
+					suppliedMore[name] = []string{"http"}
+				}
 			}
 		}
 		// the client declares forwarding headers hop-by-hop
@@ -407,6 +414,16 @@ func c08Rewrite(c *Ctx) {
 			}
 		}
 		r.Shuffle(len(hdrs), func(a, b int) { hdrs[a], hdrs[b] = hdrs[b], hdrs[a] })
+		// a field supplied on several lines: "the value" is the first line on the wire, the others follow in wire order
+		for name := range suppliedMore {
+			var lines []string
+			for _, h := range hdrs {
+				if h.k == name {
+					lines = append(lines, h.v)
+				}
+			}
+			supplied[name], suppliedMore[name] = lines[0], lines[1:]
+		}
 		for name := range e2e { // expected values in wire order
 			e2e[name] = nil
 			for _, h := range hdrs {
@@ -548,6 +565,9 @@ func c08Rewrite(c *Ctx) {
 			}
 			g := got.get(name)
 			okv := len(g) == 1 && g[0] == want
+			if more := suppliedMore[name]; len(more) > 0 && isSup && !fwdInConn[name] {
+				okv = strings.Join(g, "\x00") == strings.Join(append([]string{want}, more...), "\x00")
+			}
 			if upgrade && name == "X-Forwarded-Proto" && !isSup && len(g) == 1 && (g[0] == map[string]string{"http": "ws", "https": "wss"}[scheme]) {
 				okv = true // for a websocket handshake ws/wss describes the incoming connection just as well
 			}
